@@ -86,6 +86,14 @@ func vpC12Frozen(ti int) {
 		o.ID = vpMkIRI('i')
 		return nil
 	})
+	// language values with entries the encoders skip (empty text, repeated tag) followed by kept ones
+	if vpBool() {
+		_ = OnObject(x, func(o *Object) error {
+			o.Summary = NaturalLanguageValues{{Ref: "en", Value: Content{}}, {Ref: "fr", Value: Content("salut")}, {Ref: "de", Value: Content{vpLower()}}}
+			o.Content = NaturalLanguageValues{{Ref: "en", Value: Content("a")}, {Ref: "en", Value: Content("b")}, {Ref: "fr", Value: Content("c")}}
+			return nil
+		})
+	}
 	op := vpReadOps[vpChoice(len(vpReadOps))]
 	cell := op.name + "/" + vpTypeNames[ti]
 	vpFreeze()
